@@ -31,9 +31,9 @@ Ltac await_done A G5 q Hq id :=
     | congruence ] ].
 
 Lemma awaitinv_step c s l s' z :
-  ghostinv c s -> awaitinv s -> step c s l = Some (s', z) -> awaitinv s'.
+  corrupt s = [] -> ghostinv c s -> awaitinv s -> step c s l = Some (s', z) -> awaitinv s'.
 Proof.
-  intros (_ & _ & _ & _ & G5 & _) A H. revert A G5. unfold awaitinv. revert H.
+  intros NF (_ & _ & _ & _ & G5 & _) A H. revert A G5. unfold awaitinv. revert H.
   step_cases; intros A G5 q Hq;
     try (pget_split Hq; [try discriminate|]);
     try (left; rewrite map_app; apply in_or_app; right; left; reflexivity);
@@ -45,14 +45,14 @@ Proof.
          | first [ right; right; left; first [assumption | rewrite map_app; apply in_or_app; left; assumption]
                  | idtac ]
          | first [ congruence | right; right; right; eexists; eassumption | idtac ] ]; fail).
-  1: { await_old A q Hq; [left; assumption|right; left; assumption|
-         right; right; left; rewrite map_app; apply in_or_app; left; assumption|].
-       inversion HA; subst. right; right; left. rewrite map_app. apply in_or_app. right. left. reflexivity. }
-  1: { rewrite Heql2, Heql1. apply A. assumption. }
+  all: try (rewrite ?Heql2, ?Heql1; apply A; assumption).
   all: try (await_done A G5 q Hq id; fail).
-  all: await_old A q Hq; [left; assumption|right; left; assumption| |right; right; right; eexists; eassumption].
-  all: right; right; left; apply In_fst_remove_id; [|assumption].
-  all: intros ->; rewrite Nat.eqb_refl in E; discriminate.
+  all: try (await_old A q Hq; [left; assumption|right; left; assumption|
+         right; right; left; rewrite map_app; apply in_or_app; left; assumption|];
+       inversion HA; subst; right; right; left; rewrite map_app; apply in_or_app; right; left; reflexivity).
+  all: try (await_old A q Hq; [left; assumption|right; left; assumption| |right; right; right; eexists; eassumption];
+            right; right; left; apply In_fst_remove_id; [|assumption];
+            intros ->; rewrite Nat.eqb_refl in E; discriminate).
 Qed.
 
 (* ---- S1-free runs: every waiting request fits the capacity ---------------------------------------- *)
@@ -76,11 +76,11 @@ Definition wakeinv (s : st) : Prop :=
   0 < waiting s -> 0 < size s \/ tok s = true \/ 0 < cnt is_lefttok (prods s).
 
 Lemma wakeinv_step c s l s' z :
-  tokinv s -> sizeinv c s -> fitinv c s -> wakeinv s ->
+  corrupt s = [] -> tokinv s -> sizeinv c s -> fitinv c s -> wakeinv s ->
   wf_label c l -> fit_label c l ->
   step c s l = Some (s', z) -> wakeinv s'.
 Proof.
-  intros (T1 & _ & T3 & _) (B1 & _ & _ & _ & B5 & B6) F N W1 W2 H.
+  intros NF (T1 & _ & T3 & _) (B1 & _ & _ & _ & B5 & B6) F N W1 W2 H.
   revert T1 T3 B1 B5 B6 F N W1 W2. unfold wakeinv, fitinv, wf_label, fit_label.
   pose proof (cnt_nonneg is_lefttok (prods s)) as N1. revert N1. revert H.
   step_cases; intros N1 T1 T3 B1 B5 B6 F N W1 W2;
@@ -108,7 +108,8 @@ Proof.
     + apply awaitinv_init.
     + intros p v sz H. discriminate.
     + intros H. simpl in H. lia.
-  - intros s0 l s1 z _ ((I1 & I2 & I3 & I4) & I5 & I6 & I7) [W1 W2] Hs.
+  - intros s0 l s1 z R0 ((I1 & I2 & I3 & I4) & I5 & I6 & I7) [W1 W2] Hs.
+    pose proof (reach_nofault _ c s0 (fun l H => proj1 H) R0) as NF.
     split; [|split; [|split]].
     + split; [|split; [|split]].
       * eapply tokinv_step; eauto.
@@ -127,7 +128,7 @@ Proof.
   revert s R. apply reachP_ind.
   - split; [|apply awaitinv_init].
     split; [|split; [|split]]; [apply tokinv_init|apply sizeinv_init; exact Hc|apply ghostinv_init|apply wfrinv_init].
-  - intros s0 l s1 z _ ((I1 & I2 & I3 & I4) & I5) W Hs. split.
+  - intros s0 l s1 z R0 ((I1 & I2 & I3 & I4) & I5) W Hs. pose proof (reach_nofault _ c s0 (fun l H => H) R0) as NF. split.
     + split; [|split; [|split]].
       * eapply tokinv_step; eauto.
       * eapply sizeinv_step; eauto.
